@@ -601,7 +601,7 @@ def mark_chain_search(ctx, shim, r, n):
         lines.append(f"gp finish {d} {ng} 1 {fmt_pos(ps)}")
         meta.append((d, att))
     outs = vlib.run_lines(shim, lines)
-    nontriv = 0
+    nontriv = nbad = 0
     for ln, o, (d, att) in zip(lines, outs, meta):
         if not o.startswith("ok"):
             ctx.violation(f"position_finish_offsets failed on a well-formed mark forest: {o}",
@@ -612,7 +612,8 @@ def mark_chain_search(ctx, shim, r, n):
         if att: nontriv += 1
         for i, j, ma, ba in att:
             if (org[i][0] + ma[0], org[i][1] + ma[1]) != (org[j][0] + ba[0], org[j][1] + ba[1]):
-                ctx.violation(f"mark {i} anchor does not coincide with anchor of its target {j} (dir {d})",
+                nbad += 1
+                if nbad <= 2: ctx.violation(f"mark {i} anchor does not coincide with anchor of its target {j} (dir {d})",
                               {"stage": "search", "stream": "mark-coincide", "request": ln, "observed": o,
                                "mark": i, "target": j})
                 break
@@ -839,7 +840,8 @@ def attach_search(ctx, shim, r, nfonts, ntexts):
                         break
             if why:
                 bad += 1
-                ctx.violation("attached anchors do not coincide: " + why, rp)
+                if bad <= 2:
+                    ctx.violation("attached anchors do not coincide: " + why, rp)
     ctx.note_search("gpos-shape", stats["shapes"], stats["marks_checked"] + stats["pairs_checked"], detail=stats,
                     rule="generated fonts (GDEF classes, mark-to-base, mark-to-mark, 1-2 cursive lookups with random "
                          "RightToLeft / IgnoreMarks flags, random anchors, optional vmtx/VORG) x random texts x 4 directions "
@@ -949,7 +951,8 @@ def value_search(ctx, shim, r, nfonts, ntexts, plans):
         groups.append(lines); meta.append((rec, sem, ms))
     outs = vlib.run_groups(shim, groups, timeout=900)
     stats = {"shapes": 0, "with_nonzero_delta": 0, "kern_off": 0, "order_swapped_D3": 0, "per_dir": {d: 0 for d in DIRS}}
-    d3_reported = False
+    d3_reported = True        # the order swap (D3) is counted here and reported once by d3_shape_witness
+    nbad = 0
     for (rec, sem, ms), o, g in zip(meta, outs, groups):
         if o[0] != "ok" or o[1] != "ok":
             ctx.violation("generated value font rejected", {"stage": "search", "stream": "value-shape", "font_line": g[0][:200]})
@@ -977,7 +980,8 @@ def value_search(ctx, shim, r, nfonts, ntexts, plans):
             if any(any(v) for v in exp.values()): stats["with_nonzero_delta"] += 1
             if got != exp:
                 cl = next(c for c in exp if got.get(c) != exp[c])
-                ctx.violation(f"adjustment of cluster {cl} is {got.get(cl)} but the font's records give {exp[cl]} "
+                nbad += 1
+                if nbad <= 2: ctx.violation(f"adjustment of cluster {cl} is {got.get(cl)} but the font's records give {exp[cl]} "
                               f"(dxa, dya, dxo, dyo; dir {d}, kern feature {kf})", rp)
     ctx.note_search("value-shape", stats["shapes"], stats["with_nonzero_delta"], detail=stats,
                     rule="generated fonts with SinglePos/PairPos lookups and/or a kern table (1-3 format-0 subtables) x random "
@@ -1024,6 +1028,31 @@ def btt_hook_witness(ctx, shim):
                            "request": ln, "observed": o})
 
 
+def report_disagreements(ctx):
+    """a correspondence disagreement comes with a concrete failing request: report it as such, at once"""
+    for b in ctx.broken:
+        if b.get("stage") == "correspond" and not b.get("reported"):
+            b["reported"] = True
+            d = b["smallest"][0]
+            ctx.violation(f"model and crate disagree on stream {b['stream']} ({b['count']} cases): impl `{d['impl'][:120]}` "
+                          f"model `{d['model'][:120]}`",
+                          {"stage": "correspond", "stream": b["stream"], "request": d["request"], "impl": d["impl"],
+                           "model": d["model"], "count": b["count"]})
+
+
+def report_broken_proof(ctx):
+    """vlib.finish() mentions a broken proof only when no violation with a concrete input exists; the known
+    findings of this property (D3, BTT cursive) always exist, so say it here."""
+    if not any(v[2] for v in ctx.violations):
+        return
+    for b in ctx.broken:
+        if b.get("stage") != "correspond":
+            ctx.violation(f"proof no longer checks: {b.get('module')} {b.get('failed_at', '')}",
+                          {"stage": b.get("stage"), "module": b.get("module"), "failed_at": b.get("failed_at"),
+                           "log_tail": b.get("log_tail", "")[-1500:], "forbidden": b.get("forbidden"),
+                           "axioms": b.get("axioms")}, found_input=False)
+
+
 def run(ctx):
     ctx.assumptions += [
         "positions are modelled over unbounded Int; every i32 operation in the modelled code is +, -, negation or "
@@ -1035,6 +1064,11 @@ def run(ctx):
     ctx.regen()
     ctx.prove(MODULE)
     shim = vlib.build_harness()
+    global MARK, BASE, IGNORE_MARKS, RTL_FLAG
+    import gpos as gens_gpos
+    c = gens_gpos.read(shim)
+    MARK, BASE, IGNORE_MARKS, RTL_FLAG = c["gpMark"], c["gpBaseGlyph"], c["ignoreMarks"], c["rightToLeft"]
+    ctx.cov["crate_constants"] = c
     plans = plan_table(shim)
     ctx.cov["kern_plan"] = {f"{d}/{f}": v for (d, f), v in plans.items()}
     ctx.correspond("gpos-propagate", lines=prop_lines(ctx.rng("prop"), ctx.budget(6000, 150000)),
@@ -1046,12 +1080,15 @@ def run(ctx):
     ctx.correspond("kern-fmt0", lines=f0_lines(ctx.rng("f0"), ctx.budget(2000, 50000)), canon=canon)
     ctx.correspond("kern-driver", lines=drv_lines(ctx.rng("drv"), ctx.budget(3000, 80000), plans),
                    classify=classify_drv, canon=canon)
+    report_disagreements(ctx)
     mark_chain_search(ctx, shim, ctx.rng("markchain"), ctx.budget(3000, 60000))
     attach_search(ctx, shim, ctx.rng("attach"), ctx.budget(150, 3000), ctx.budget(8, 12))
     value_search(ctx, shim, ctx.rng("value"), ctx.budget(150, 3000), ctx.budget(8, 12), plans)
+    # genuine findings last, so that they never use up the violation budget of the streams above
     d3_hook_witness(ctx, shim, plans)
     d3_shape_witness(ctx, shim)
     btt_hook_witness(ctx, shim)
+    report_broken_proof(ctx)
 
 
 def replay(ctx, rp):
